@@ -15,7 +15,7 @@ def sh(cmd, **kw):
     return subprocess.run(cmd, stdout=subprocess.PIPE, stderr=subprocess.STDOUT, text=True, **kw)
 
 def main():
-    ids = sys.argv[1:] or sorted(os.listdir(SEEDED))
+    ids = sys.argv[1:] or sorted(d for d in os.listdir(SEEDED) if os.path.isdir(os.path.join(SEEDED, d)))
     scratch = tempfile.mkdtemp(prefix="seedtest")
     env = dict(os.environ, VERIF_DEV_NO_PROOFS="1", VERIF_EVIDENCE_DIR=os.path.join(scratch, "ev"), VERIF_REPLAY_DIR=os.path.join(scratch, "rp"))
     results = {}
